@@ -17,6 +17,7 @@ import (
 	channeltypes "github.com/cosmos/ibc-go/v8/modules/core/04-channel/types"
 
 	"cosmossdk.io/math"
+	dispatchertypes "github.com/noble-assets/orbiter/v2/types/component/dispatcher"
 	sdk "github.com/cosmos/cosmos-sdk/types"
 
 	"github.com/noble-assets/orbiter/v2/types/core"
@@ -169,17 +170,19 @@ func (wr *worldRunner) runCase(prop string, p profile, r *rng.R, stats map[strin
 	ctx := wr.caseCtx()
 	nops := p.minOps + r.Intn(p.maxOps-p.minOps+1)
 	type planned struct {
-		op   world.Op
-		info pktInfo
+		op     world.Op
+		info   pktInfo
+		funded bool // the escrow is funded by an operation of the history itself, just before this one
 	}
+	var lastRecv *planned
 	var ops []planned
 	if r.Chance(p.pInitLimit) {
 		m := world.Msg{Kind: "UpdateParams", Signer: sim.Authority, Max: rng.Pick(r, []uint32{16, 17, 64, 300, 65536})}
-		ops = append(ops, planned{world.Op{Kind: "msg", Msg: m}, pktInfo{shape: "msg/UpdateParams"}})
+		ops = append(ops, planned{op: world.Op{Kind: "msg", Msg: m}, info: pktInfo{shape: "msg/UpdateParams"}})
 	}
 	if (prop == "C08" || prop == "C19") && r.Chance(5) {
 		for _, m := range manyPaused(r) {
-			ops = append(ops, planned{world.Op{Kind: "msg", Msg: m}, pktInfo{shape: "msg/" + m.Kind}})
+			ops = append(ops, planned{op: world.Op{Kind: "msg", Msg: m}, info: pktInfo{shape: "msg/" + m.Kind}})
 		}
 	}
 	pinned := wr.pinFirst
@@ -196,6 +199,18 @@ func (wr *worldRunner) runCase(prop string, p profile, r *rng.R, stats map[strin
 		if pin || swept {
 			x = 0
 		}
+		if x < p.wRecv && !pin && !swept && lastRecv != nil && lastRecv.info.denom != "" && lastRecv.info.amount.Sign() > 0 && r.Chance(p.pRepeat) {
+			// the previous packet once more, on the same route: what accumulates per route (statistics, escrow totals)
+			// is met a second time, at the same key; the escrow is refilled by the history itself, so that even two
+			// transfers of half the 256-bit range can follow each other (the first one's coins may have been burned)
+			again := *lastRecv
+			again.funded = true
+			again.info.shape += "/again"
+			ops = append(ops, planned{op: world.Op{Kind: "deposit", To: world.Escrow(dstPort, again.info.dstChan), Denom: again.info.denom,
+				Amount: new(big.Int).Set(again.info.amount), EscrowChan: again.info.dstChan}, info: pktInfo{shape: "deposit"}})
+			ops = append(ops, again)
+			continue
+		}
 		switch {
 		case x >= p.wRecv+p.wMsg+p.wDeposit+p.wQuery:
 			// a user's own bank send: to the orbiter account (anybody may), to the dust collector (nobody may: it is
@@ -208,10 +223,10 @@ func (wr *worldRunner) runCase(prop string, p profile, r *rng.R, stats map[strin
 				wr.a.users[2].Raw, wr.a.feeRcps[0].Raw, world.ModAddr("hyperlane")})
 			if r.Chance(70) {
 				// make sure the sender can pay
-				ops = append(ops, planned{world.Op{Kind: "deposit", To: from, Denom: sim.USDC, Amount: big.NewInt(100)}, pktInfo{shape: "deposit"}})
+				ops = append(ops, planned{op: world.Op{Kind: "deposit", To: from, Denom: sim.USDC, Amount: big.NewInt(100)}, info: pktInfo{shape: "deposit"}})
 			}
 			op := world.Op{Kind: "send", From: from, To: to, Denom: rng.Pick(r, []string{sim.USDC, sim.USDC, "ufoo"}), Amount: big.NewInt(int64(1 + r.Intn(60)))}
-			ops = append(ops, planned{op, pktInfo{shape: "send"}})
+			ops = append(ops, planned{op: op, info: pktInfo{shape: "send"}})
 		case x < p.wRecv:
 			pkt, info := g.genPacket()
 			if swept {
@@ -239,7 +254,7 @@ func (wr *worldRunner) runCase(prop string, p profile, r *rng.R, stats map[strin
 						f.feeDenom, f.feeAmt = igp.Denom, igp.Quote(f.gas)
 						info.shape += "/gas-hook-paid-from-prior-balance"
 						info.expectOK = false
-						ops = append(ops, planned{world.Op{Kind: "deposit", To: sim.OrbiterAddr(), Denom: igp.Denom, Amount: big.NewInt(1000)}, pktInfo{shape: "deposit"}})
+						ops = append(ops, planned{op: world.Op{Kind: "deposit", To: sim.OrbiterAddr(), Denom: igp.Denom, Amount: big.NewInt(1000)}, info: pktInfo{shape: "deposit"}})
 					}
 				}
 			} else if info.spec != nil && info.spec.fwd.gasHook && info.spec.rawMem == nil && p.wDeposit > 0 && r.Chance(50) {
@@ -247,7 +262,7 @@ func (wr *worldRunner) runCase(prop string, p profile, r *rng.R, stats map[strin
 				for _, igp := range wr.w.S.IGPs {
 					if igp.ID == string(info.spec.fwd.hook) {
 						amt := new(big.Int).Add(igp.Quote(info.spec.fwd.gas), big.NewInt(int64(r.Intn(50))))
-						ops = append(ops, planned{world.Op{Kind: "deposit", To: sim.OrbiterAddr(), Denom: igp.Denom, Amount: amt}, pktInfo{shape: "deposit"}})
+						ops = append(ops, planned{op: world.Op{Kind: "deposit", To: sim.OrbiterAddr(), Denom: igp.Denom, Amount: amt}, info: pktInfo{shape: "deposit"}})
 					}
 				}
 			}
@@ -258,7 +273,7 @@ func (wr *worldRunner) runCase(prop string, p profile, r *rng.R, stats map[strin
 					info.spec.fwd.token, info.spec.fwd.domain, info.spec.fwd.hook = []byte(wr.w.S.HypTokens[other]), 1, nil
 					info.shape += "/fwd-hyp-token-of-another-denom-funded"
 					info.expectOK = false
-					ops = append(ops, planned{world.Op{Kind: "deposit", To: sim.OrbiterAddr(), Denom: other, Amount: new(big.Int).Mul(info.amount, big.NewInt(2))}, pktInfo{shape: "deposit"}})
+					ops = append(ops, planned{op: world.Op{Kind: "deposit", To: sim.OrbiterAddr(), Denom: other, Amount: new(big.Int).Mul(info.amount, big.NewInt(2))}, info: pktInfo{shape: "deposit"}})
 				}
 			}
 			if info.spec != nil && pkt.ICS != nil {
@@ -270,6 +285,14 @@ func (wr *worldRunner) runCase(prop string, p profile, r *rng.R, stats map[strin
 					pkt.ICS.Memo = `{"orbiter":{}}`
 					info.shape += "/unbuildable"
 				}
+			}
+			if !pin && !swept && info.spec != nil && pkt.ICS != nil && info.spec.rawMem == nil && r.Chance(3) {
+				// a complete orbiter memo followed by something: not a JSON document any more
+				raw := pkt.ICS.Memo + rng.Pick(r, []string{"}", " x", `,"forward":{}`, pkt.ICS.Memo, "]", " null", "\x00"})
+				info.spec.rawMem = &raw
+				pkt.ICS.Memo = raw
+				info.shape += "/trailing-bytes"
+				info.expectOK = false
 			}
 			if prop == "C19" && info.spec != nil && pkt.ICS != nil && info.spec.rawMem == nil && r.Chance(22) {
 				// a document with several irregularities at once: the decoder meets them through Go maps
@@ -284,6 +307,20 @@ func (wr *worldRunner) runCase(prop string, p profile, r *rng.R, stats map[strin
 					info.spec.rawMem = &raw
 					pkt.ICS.Memo = raw
 					info.shape += "/mutated-memo"
+				}
+			}
+			if !pin && !swept && pkt.ICS != nil && r.Chance(p.pOddWire) {
+				saved := pkt
+				if kind := oddWire(r, &pkt); pkt.WireAgrees() {
+					info.shape += "/" + kind
+					if kind == "wire-missing-sender" {
+						info.expectOK = false // the ICS-20 application refuses a packet without a sender
+					}
+					if pkt.ICS == nil {
+						info = pktInfo{shape: "raw-data/" + kind}
+					}
+				} else {
+					pkt = saved // the rewriting does not say what it was meant to say (odd bytes in a field): dropped
 				}
 			}
 			op := world.Op{Kind: "recv", Pkt: pkt, Twin: prop == "C11", Ref: prop == "C07"}
@@ -322,11 +359,16 @@ func (wr *worldRunner) runCase(prop string, p profile, r *rng.R, stats map[strin
 				op.PanicAt = 1 + r.Intn(8)
 				info.shape += fmt.Sprintf("/ext-panic@%d", op.PanicAt)
 			}
-			ops = append(ops, planned{op, info})
+			ops = append(ops, planned{op: op, info: info})
+			if op.Callback == "" && len(op.Plan) == 0 && op.Lie == 0 && op.PanicAt == 0 && pkt.ICS != nil && pkt.Raw == nil {
+				lastRecv = &ops[len(ops)-1]
+				cp := *lastRecv
+				lastRecv = &cp
+			}
 		case x < p.wRecv+p.wMsg:
 			m := g.genMsg()
 			op := world.Op{Kind: "msg", Msg: m}
-			ops = append(ops, planned{op, pktInfo{shape: "msg/" + m.Kind}})
+			ops = append(ops, planned{op: op, info: pktInfo{shape: "msg/" + m.Kind}})
 		case x < p.wRecv+p.wMsg+p.wDeposit:
 			to := rng.Pick(r, []sdk.AccAddress{sim.OrbiterAddr(), sim.OrbiterAddr(), sim.OrbiterAddr(), wr.a.users[0].Raw})
 			amt := big.NewInt(int64(1 + r.Intn(1000)))
@@ -336,17 +378,17 @@ func (wr *worldRunner) runCase(prop string, p profile, r *rng.R, stats map[strin
 					new(big.Int).Add(new(big.Int).Lsh(big.NewInt(1), 64), big.NewInt(5)), new(big.Int).Lsh(big.NewInt(1), 128), new(big.Int).Lsh(big.NewInt(1), 200)})
 			}
 			op := world.Op{Kind: "deposit", To: to, Denom: rng.Pick(r, wr.w.Denoms), Amount: amt}
-			ops = append(ops, planned{op, pktInfo{shape: "deposit"}})
+			ops = append(ops, planned{op: op, info: pktInfo{shape: "deposit"}})
 		default:
 			op := world.Op{Kind: "query", Q: g.genQuery()}
-			ops = append(ops, planned{op, pktInfo{shape: "query"}})
+			ops = append(ops, planned{op: op, info: pktInfo{shape: "query"}})
 		}
 	}
 
 	// fund what the packets need, then take the initial snapshot
 	need := map[[2]string]*big.Int{}
 	for _, pl := range ops {
-		if pl.op.Kind == "recv" && pl.info.denom != "" && pl.info.amount.Sign() > 0 {
+		if pl.op.Kind == "recv" && !pl.funded && pl.info.denom != "" && pl.info.amount.Sign() > 0 {
 			k := [2]string{pl.info.dstChan, pl.info.denom}
 			if need[k] == nil {
 				need[k] = new(big.Int)
@@ -360,6 +402,10 @@ func (wr *worldRunner) runCase(prop string, p profile, r *rng.R, stats map[strin
 				wr.topUp(ctx, ch, d, n)
 			}
 		}
+	}
+	if (prop == "C12" || prop == "C02" || prop == "C03" || prop == "mix") && r.Chance(8) {
+		// a chain that has already moved almost everything a 256-bit total can hold over some routes
+		wr.nearFullStats(ctx, r)
 	}
 	before := wr.w.Snap(ctx)
 
@@ -613,10 +659,10 @@ func (o *oracle) bal(sn world.Snapshot, acct int, denom int) *big.Int {
 }
 
 var sigProp = map[string]string{
-	"recv-panic": "C14", "msg-panic": "C14",
+	"recv-panic": "C14", "msg-panic": "C14", "malformed-memo-executed": "C14",
 	"orbiter-balance-grew": "C01", "orbiter-keeps-funds": "C01",
-	"error-ack-state-changed": "C03", "success-despite-failure": "C03", "success-without-forwarding": "C03",
-	"accepted-foreign-denom": "C16", "forwarded-coin-differs": "C16", "fee-accepted-invalid": "C04", "fee-refused-valid": "C04",
+	"error-ack-state-changed": "C03", "success-despite-failure": "C03", "success-without-forwarding": "C03", "partial-success": "C03",
+	"accepted-foreign-denom": "C16", "forwarded-coin-differs": "C16", "forwarded-amount-differs": "C16", "fee-accepted-invalid": "C04", "fee-refused-valid": "C04",
 	"nonpositive-out": "C02", "ledger-delta": "C02", "supply-delta": "C02", "other-denom-touched": "C02",
 	"mismatched-route-accepted": "C05", "bridge-request": "C05", "replace-request": "C05",
 	"unauthorized-accepted": "C10", "unauthorized-changed-state": "C10", "refused-msg-changed-state": "C10", "authority-refused": "C10",
@@ -630,7 +676,13 @@ var sigProp = map[string]string{
 }
 
 func (o *oracle) fail(sig, what string, desc string) Failure {
-	return Failure{What: what, Sig: sig, Prop: sigProp[sig], Case: map[string]any{"op": desc}}
+	prop := sigProp[sig]
+	if o.prop == "C20" && prop == "C08" {
+		// the end-to-end part of C20: "a successful pause of an identifier covers the transfers it names" is judged by
+		// the same observations as C08's pause sets, here on identifiers at the edges of what is accepted
+		prop = "C20"
+	}
+	return Failure{What: what, Sig: sig, Prop: prop, Case: map[string]any{"op": desc}}
 }
 
 // check judges one operation; the failures of a packet whose forwarding goes through a gas paymaster say so
@@ -683,6 +735,10 @@ func (o *oracle) check0(op world.Op, info pktInfo, obs world.OpObs) []Failure {
 			fs = append(fs, o.checkPrior(op, info, obs, desc)...)
 			return fs
 		}
+		// C14: a memo that is not a JSON document is never executed
+		if orbFlow && obs.Recv.Success && op.Pkt.ICS != nil && !json.Valid([]byte(op.Pkt.ICS.Memo)) {
+			fs = append(fs, o.fail("malformed-memo-executed", "an orbiter packet whose memo is not a JSON document was executed", desc))
+		}
 		// C01: success never leaves more on the orbiter account; an orbiter packet leaves nothing of the credited denom
 		// (not under an injected lie of the bank: the property is about the real ledger)
 		if obs.Recv.Success && op.Lie == 0 {
@@ -697,6 +753,9 @@ func (o *oracle) check0(op world.Op, info pktInfo, obs world.OpObs) []Failure {
 					for _, esc := range []int{2, 3} {
 						if o.bal(obs.After, esc, d).Cmp(o.bal(obs.Before, esc, d)) < 0 && o.bal(obs.After, 0, d).Sign() != 0 {
 							fs = append(fs, o.fail("orbiter-keeps-funds", fmt.Sprintf("success acknowledgement but %s %s of the delivered denom stay on the orbiter account",
+								o.bal(obs.After, 0, d), o.wr.w.Denoms[d]), desc))
+							// the same observation is a partial success (C03): acknowledged, part of the coin neither forwarded nor refunded
+							fs = append(fs, o.fail("partial-success", fmt.Sprintf("success acknowledgement although %s %s of the delivered coin were neither paid as a fee nor forwarded",
 								o.bal(obs.After, 0, d), o.wr.w.Denoms[d]), desc))
 						}
 					}
@@ -738,6 +797,11 @@ func (o *oracle) check0(op world.Op, info pktInfo, obs world.OpObs) []Failure {
 		fs = append(fs, o.checkOrder(op, info, obs, desc)...)
 		fs = append(fs, o.checkPrior(op, info, obs, desc)...)
 	case "msg":
+		if obs.RefusedWrote != "" && op.Msg.Signer != sim.Authority && !denotesAuthority(op.Msg.Signer) {
+			// (a message of the authority that is refused half way relies on the transaction being dropped as a whole;
+			// one of anybody else must not have touched anything when it returns)
+			fs = append(fs, o.fail("unauthorized-changed-state", "message signed by "+op.Msg.Signer+" (not the authority) is refused, but its handler had already written to the state of the context it ran on: "+obs.RefusedWrote, desc))
+		}
 		if obs.MsgPan != "" {
 			fs = append(fs, o.fail("msg-panic", "message handler panics: "+obs.MsgPan, desc))
 		}
@@ -908,6 +972,23 @@ func (o *oracle) checkMoves(op world.Op, info pktInfo, obs world.OpObs, desc str
 	}
 	if bridge == nil {
 		return fs
+	}
+	// C16: the amount handed to the route is the credited amount less the fees (no amount-changing action here)
+	{
+		var gotAmt *big.Int
+		switch bridge.Kind {
+		case "cctp":
+			gotAmt = bridge.Args[1].Big()
+		case "hyptransfer":
+			gotAmt = bridge.Args[4].Big()
+		case "banksend":
+			if items := bridge.Args[2].Items(); len(items) == 1 && len(items[0].Items()) == 2 {
+				gotAmt = items[0].Items()[1].Big()
+			}
+		}
+		if gotAmt != nil && gotAmt.Cmp(out) != 0 {
+			fs = append(fs, o.fail("forwarded-amount-differs", fmt.Sprintf("ICS-20 credited %s and the fees took %s, but the route was asked to take %s", A, new(big.Int).Sub(A, out), gotAmt), desc))
+		}
 	}
 	if !bridge.V().Equal(wantReq) {
 		fs = append(fs, o.fail("bridge-request", fmt.Sprintf("the bridge request %v differs from the payload's parameters and the post-action coin %v", bridge.V().JSON(), wantReq.JSON()), desc))
@@ -1107,7 +1188,14 @@ func (o *oracle) checkState(op world.Op, info pktInfo, obs world.OpObs, desc str
 				if cur[0] == nil {
 					cur = [2]*big.Int{new(big.Int), new(big.Int)}
 				}
-				o.amounts[k] = [2]*big.Int{new(big.Int).Add(cur[0], in), new(big.Int).Add(cur[1], ou)}
+				ni, no := new(big.Int).Add(cur[0], in), new(big.Int).Add(cur[1], ou)
+				if ni.Cmp(two256) >= 0 || no.Cmp(two256) >= 0 {
+					// a total that leaves the 256-bit range: the module keeps the old figures (and says so in its log);
+					// the harness stops judging the statistics of this history (the model still does, exactly)
+					o.statsUnknown = true
+					return
+				}
+				o.amounts[k] = [2]*big.Int{ni, no}
 			}
 			finalDenom := info.denom
 			if info.spec != nil {
@@ -1501,4 +1589,100 @@ func clipMemo(m string) string {
 		return fmt.Sprintf("%s...(%d bytes in all)", m[:200], len(m))
 	}
 	return m
+}
+
+
+// oddWire rewrites the packet data as another JSON text. The first kinds are other writings of the SAME ICS-20 data
+// (escaped characters in a value or a key, reordered keys, white space): every JSON decoder reads the same fields, the
+// packet stays what it was. The last kinds are NOT ICS-20 data for ibc-go's strict decoder (an extra key, a key in
+// another case, a number where a string is expected), whatever a lenient decoder would make of them: the packet
+// becomes a raw one.
+func oddWire(r *rng.R, p *world.Packet) string {
+	ics := *p.ICS
+	q := func(s string) string { b, _ := json.Marshal(s); return string(b) }
+	esc := func(s string) string { // the i-th character written as \uXXXX
+		if s == "" {
+			return q(s)
+		}
+		rs := []rune(s)
+		i := r.Intn(len(rs))
+		if rs[i] > 0xffff {
+			return q(s)
+		}
+		head, tail := q(string(rs[:i])), q(string(rs[i+1:]))
+		return head[:len(head)-1] + fmt.Sprintf("\\u%04x", rs[i]) + tail[1:]
+	}
+	fields := [][2]string{{"denom", q(ics.Denom)}, {"amount", q(ics.Amount)}, {"sender", q(ics.Sender)}, {"receiver", q(ics.Receiver)}, {"memo", q(ics.Memo)}}
+	render := func(sep string) []byte {
+		parts := make([]string, len(fields))
+		for i, f := range fields {
+			k := f[0]
+			if !strings.HasPrefix(k, "\"") {
+				k = q(k)
+			}
+			parts[i] = k + ":" + sep + f[1]
+		}
+		return []byte("{" + sep + strings.Join(parts, ","+sep) + sep + "}")
+	}
+	switch r.Intn(8) {
+	case 0:
+		fields[3][1] = esc(ics.Receiver)
+		p.Raw = render("")
+		return "wire-escaped-receiver"
+	case 1:
+		i := r.Intn(len(fields))
+		fields[i][1] = esc([]string{ics.Denom, ics.Amount, ics.Sender, ics.Receiver, ics.Memo}[i])
+		p.Raw = render("")
+		return "wire-escaped-value"
+	case 2:
+		i := r.Intn(len(fields))
+		fields[i][0] = esc(fields[i][0])
+		p.Raw = render("")
+		return "wire-escaped-key"
+	case 3:
+		for i := len(fields) - 1; i > 0; i-- {
+			j := r.Intn(i + 1)
+			fields[i], fields[j] = fields[j], fields[i]
+		}
+		p.Raw = render(rng.Pick(r, []string{"", " ", "\n\t"}))
+		return "wire-reordered"
+	case 4:
+		fields = append(fields, [2]string{rng.Pick(r, []string{"fee", "forward", "Memo2", ""}), rng.Pick(r, []string{`"1"`, "null", "{}", "[1]"})})
+		p.Raw, p.ICS = render(""), nil
+		return "wire-extra-key"
+	case 5:
+		i := r.Intn(len(fields))
+		fields[i][0] = rng.Pick(r, []string{strings.ToUpper(fields[i][0]), strings.Title(fields[i][0])})
+		p.Raw, p.ICS = render(""), nil
+		return "wire-key-case"
+	case 6:
+		fields[1][1] = rng.Pick(r, []string{"5", "5.0", "null", "true"})
+		p.Raw, p.ICS = render(""), nil
+		return "wire-amount-not-a-string"
+	default:
+		fields = append(fields[:2], fields[3:]...) // no sender
+		p.Raw = render("")
+		ics.Sender = ""
+		p.ICS = &ics
+		return "wire-missing-sender"
+	}
+}
+
+
+// nearFullStats writes dispatched amounts a few thousand units below 2^256-1 for some of the routes the histories use.
+func (wr *worldRunner) nearFullStats(ctx sdk.Context, r *rng.R) {
+	d := wr.w.S.App.OrbiterKeeper.Dispatcher()
+	max := new(big.Int).Sub(two256, big.NewInt(1))
+	for k := 1 + r.Intn(3); k > 0; k-- {
+		src := &core.CrossChainID{ProtocolId: core.PROTOCOL_IBC, CounterpartyId: rng.Pick(r, dstChans)}
+		dst := rng.Pick(r, []*core.CrossChainID{{ProtocolId: core.PROTOCOL_CCTP, CounterpartyId: "0"}, {ProtocolId: core.PROTOCOL_CCTP, CounterpartyId: "1"},
+			{ProtocolId: core.PROTOCOL_CCTP, CounterpartyId: "2"}, {ProtocolId: core.PROTOCOL_HYPERLANE, CounterpartyId: "1"}, {ProtocolId: core.PROTOCOL_INTERNAL, CounterpartyId: "noble"}})
+		in := new(big.Int).Sub(max, big.NewInt(int64(r.Intn(3000))))
+		out := new(big.Int).Sub(max, big.NewInt(int64(r.Intn(3000))))
+		if r.Chance(40) {
+			out = big.NewInt(int64(r.Intn(1000)))
+		}
+		_ = d.SetDispatchedAmount(ctx, src, dst, rng.Pick(r, wr.w.Denoms),
+			dispatchertypes.AmountDispatched{Incoming: math.NewIntFromBigInt(in), Outgoing: math.NewIntFromBigInt(out)})
+	}
 }
